@@ -2,12 +2,32 @@ from vfprops import PKG
 PART = {
     "C09": {
         "runs": [{"name": "dkgpkt", "pkg": PKG["dkg"], "run": "^TestVF_C09", "timeout": "20m", "timeout_thorough": "60m"}],
-        "rule": "tbd",
-        "assumptions": [],
+        "rule": "engine dkgpkt: per scheme (default + 2 seeded in quick, all 5 in thorough) one world of 7 real dkg.Process + 1 outsider key, states reached by "
+                "real commands (epoch-1 DKG of 5 nodes completed for real; epoch-2 reshare proposed / accepted / aborted); victims are forks "
+                "(new Process on a copy of a node's dkg.db image at a stage). Cells = packet type {proposal,accept,reject,execute,abort} x claimed sender "
+                "{leader,member,joiner,leaver,outsider} x key {right, another member's, fresh attacker key substituted under the member's address with / without "
+                "self-signature} x variant {names itself / keeps the leader; for itself / for another member} x victim {leader,remainer,joiner,leaver} x epoch {1,2}, "
+                "plus every single-field alteration of the honest signed packet (scalars, each participant's address/key/signature, membership, order, oneof type), "
+                "plus right key over other terms, plus a two-step chain (leader swaps a member key, swapped key accepts). Verdict from the raw dkg.db before/after "
+                "against the harness's own bookkeeping of who signed what. A cell is non-trivial iff the untouched honest packet of its (stage,victim,type) group "
+                "was accepted (ok + db change) on a pristine fork; distinct by (scheme,epoch,type,sender,key,variant,victim-role,mutation)",
+        "assumptions": ["BLS/kyber signature verification and bbolt are trusted",
+                        "a fork (restarted node: same dkg.db, empty SeenPackets) is a legitimate node state",
+                        "answer ok without a database change (SeenPackets dedupe) is counted, not a violation: the statement is about changing state",
+                        "a newcomer can only check that the sender's listed key is self-signed and signed the packet",
+                        "fields that are neither signed nor applied (RejectProposal reason/secret/hashes) are counted only"],
     },
     "C14": {
-        "runs": [{"name": "dkgsvc", "pkg": PKG["dkg"], "run": "^TestVF_C14$", "timeout": "20m", "timeout_thorough": "60m"}],
-        "rule": "tbd",
-        "assumptions": [],
+        "runs": [{"name": "dkgsvc", "pkg": PKG["dkg"], "run": "^TestVF_C14", "timeout": "30m", "timeout_thorough": "90m", "race_thorough": True}],
+        "rule": "engine dkgsvc: child test processes (one per node state fresh / proposed / executing (board set up, kick-off pending) / executing-live (real reshare "
+                "running) + complete-live (reshare finished, node keeps running) / complete), states prepared by real commands; structured hostile GossipPacket and "
+                "DKGPacket shapes (nil/empty nested messages, 0..97 B and 1 MiB byte fields, unknown ids, every oneof variant incl. the Dkg bundle inside a gossip packet, "
+                "every bundle kind nil/empty, huge indices, member-signed malformed bundles) sent to Process.Packet / Process.BroadcastDKG as single requests and "
+                "seeded sequences of 2-5; each request logged before sending; after each request DKGStatus + an honest packet + a well-formed bundle must be answered. "
+                "A case is non-trivial iff every request of it was answered or its wedge was established from a goroutine dump; distinct by (state, sequence of kinds)",
+        "assumptions": ["a panic recovered in the calling goroutine is contained by the gRPC recovery interceptor in the daemon and only counted here",
+                        "watchdog 6 s per call; a time-out alone is inconclusive, a wedge needs a goroutine parked inside dkg.(*Process)/(*echoBroadcast) in the dump",
+                        "shapes a protobuf decoder cannot produce (nil inside a oneof wrapper or a repeated field) are sent too and tagged not_wire_producible"],
+        "race_anchors": ["internal/dkg.(*Process)"],
     },
 }
